@@ -364,7 +364,15 @@ pub fn minimise(scen: &Scenario, v: &Violation, budget: Duration) -> (Scenario, 
                 }
             }
         }
-        // 5. options off
+        // 5. options off; environment changes undone
+        try_apply(&mut cx, &mut cur, |s| s.env.clear());
+        let mut i = cur.env.len();
+        while i > 0 {
+            i -= 1;
+            try_apply(&mut cx, &mut cur, |s| {
+                s.env.remove(i);
+            });
+        }
         try_apply(&mut cx, &mut cur, |s| s.config.css.clear());
         let mut i = cur.config.css.len();
         while i > 0 {
